@@ -60,6 +60,10 @@ structure Inv (s : St) : Prop where
   /-- added: a goroutine blocks in the `cancelPendingMsgs` of `reconnect` only with the flag set and the reply
       channel of a streaming router full; both stay so while it is blocked -/
   rcBlockedBroken : (s.spc = .rcBlocked ∨ s.rpc = .rcBlocked) → s.broken = true ∧ s.fullStream = true
+  /-- added: the exiting receiver answers every request written to a stream (`rCancelExit`); afterwards the
+      manager is closed (`exitedClosed`), so no stream is alive and nothing is in flight (`aliveOpen`,
+      `inflightAlive`): nothing can be lost any more -/
+  exitedNothingLost : s.rpc = .exited → s.lost = 0
 
 theorem inv_init : Inv init := by
   constructor <;> simp [init]
@@ -82,7 +86,7 @@ theorem original_fields_not_inductive :
 theorem inv_step_sender (s s' : St) (l : Label) (h : Inv s) (hs : step s l = some s')
     (hl : l = .sPop ∨ l = .sEval ∨ l = .sDial ∨ l = .sConnB ∨ l = .sRcEnter ∨ l = .sRcLock ∨ l = .sRcDo ∨ l = .sRcDoBlock ∨
       l = .sRcWake ∨ l = .sBrokenChk ∨ l = .sRLock ∨ l = .sSendOk ∨ l = .sSendFail ∨ l = .sExit) : Inv s' := by
-  obtain ⟨h1, h2, h3, h4, h5, h6, h7, h8, h9, h10, h11, h12, h13, h14, h15, h16, h17, h18⟩ := h
+  obtain ⟨h1, h2, h3, h4, h5, h6, h7, h8, h9, h10, h11, h12, h13, h14, h15, h16, h17, h18, h19⟩ := h
   rcases hl with rfl | rfl | rfl | rfl | rfl | rfl | rfl | rfl | rfl | rfl | rfl | rfl | rfl | rfl <;>
     simp only [step] at hs <;> (repeat' split at hs) <;> cases hs <;> constructor <;>
     first | assumption | grind [newStream, killStream, replaceStream, lockFree, writerPending]
@@ -91,7 +95,7 @@ theorem inv_step_receiver (s s' : St) (l : Label) (h : Inv s) (hs : step s l = s
     (hl : l = .rRLock ∨ l = .rRecvMsg ∨ l = .rRecvErr ∨ l = .rDeliver ∨ l = .rDeliverBlock ∨ l = .rCancel ∨
       l = .rCancelBlock ∨ l = .rRcLock ∨ l = .rRcDo ∨ l = .rRcDoBlock ∨ l = .rRcWake ∨ l = .rExitChk ∨ l = .rCancelExit ∨
       l = .rCancelExitBlock) : Inv s' := by
-  obtain ⟨h1, h2, h3, h4, h5, h6, h7, h8, h9, h10, h11, h12, h13, h14, h15, h16, h17, h18⟩ := h
+  obtain ⟨h1, h2, h3, h4, h5, h6, h7, h8, h9, h10, h11, h12, h13, h14, h15, h16, h17, h18, h19⟩ := h
   rcases hl with rfl | rfl | rfl | rfl | rfl | rfl | rfl | rfl | rfl | rfl | rfl | rfl | rfl | rfl <;>
     simp only [step] at hs <;> (repeat' split at hs) <;> cases hs <;> constructor <;>
     first | assumption | grind [newStream, killStream, replaceStream, lockFree, writerPending]
@@ -99,7 +103,7 @@ theorem inv_step_receiver (s s' : St) (l : Label) (h : Inv s) (hs : step s l = s
 theorem inv_step_env (s s' : St) (l : Label) (h : Inv s) (hs : step s l = some s')
     (hl : l = .eRequest ∨ l = .eStreamFail ∨ l = .ePeerDown ∨ l = .ePeerUp ∨ l = .eFullStream ∨
       l = .eDeleteRouter ∨ l = .eClose) : Inv s' := by
-  obtain ⟨h1, h2, h3, h4, h5, h6, h7, h8, h9, h10, h11, h12, h13, h14, h15, h16, h17, h18⟩ := h
+  obtain ⟨h1, h2, h3, h4, h5, h6, h7, h8, h9, h10, h11, h12, h13, h14, h15, h16, h17, h18, h19⟩ := h
   rcases hl with rfl | rfl | rfl | rfl | rfl | rfl | rfl <;>
     simp only [step, killStream] at hs <;> (repeat' split at hs) <;> cases hs <;> constructor <;>
     first | assumption | grind [newStream, killStream, replaceStream, lockFree, writerPending]
